@@ -27,7 +27,8 @@ ASSUMPTIONS = ["vf.refsolve numpy trajectories implement the documented rule (th
 MIN_DECIDING = {"quick": 150, "thorough": 1500}
 SHARD_TIMEOUT = {"quick": 1800, "thorough": 9000}
 
-KINDS = [("vi", "span"), ("vi", "max_diff"), ("rvi", "span"), ("per", "span"), ("sa", "span"), ("sa", "max_diff")]
+KINDS = [("vi", "span"), ("vi", "max_diff"), ("rvi", "span"), ("per", "span"), ("sa", "span"), ("sa", "max_diff"),
+         ("pi", "max_diff"), ("sas", "max_diff")]   # sas = semi-async with state shuffling (orders from the C06 hook)
 
 
 def gen_cases(seed, tier):
@@ -67,14 +68,19 @@ def run_case(case):
     S = R.shape[0]
     kind, test, g, eps = case["solver"], case["test"], case["gamma"], case["epsilon"]
     kw = dict(gamma=g, epsilon=eps, max_batch_size=case["max_batch_size"])
-    if kind in ("vi", "sa"):
+    shuffled = kind == "sas"
+    if shuffled:
+        kind = "sa"
+    if kind in ("vi", "sa", "pi"):
         kw["convergence_test"] = test
+    if kind == "pi":
+        return _pi_history(case, problem, kw, P, R, struct)
     if kind == "rvi":
         kw.pop("gamma")
     if kind == "per":
         kw.update(period=case["period"], clear_value_history_on_convergence=case["clear"])
     if kind == "sa":
-        kw.update(shuffle_states=False)
+        kw.update(shuffle_states=shuffled, random_seed=int(case["spec"]["gseed"]) % 100000)
 
     def mk():
         return target.make_solver(kind, problem, **kw)
@@ -108,8 +114,13 @@ def run_case(case):
                         detail=f"{kind}: solve({k}) advanced iteration from {it0} to {it1}")
         near = False
         stopped = False
+        orders = getattr(s, "_verif_sweep_orders", None) if shuffled else None
+        if shuffled and (orders is None or len(orders) != it1):
+            return dict(status="error", detail="hook record of sweep orders missing or of wrong length")
         for j in range(k):
-            _, m = traj.step()
+            if shuffled and traj.n >= len(orders):
+                break
+            _, m = traj.step(order=np.asarray(orders[traj.n]).astype(int) if shuffled else None)
             if refsolve.near_threshold(m, thr, traj.noise(traj.n)):
                 near = True
                 break
@@ -168,8 +179,50 @@ def run_case(case):
               "crosses-convergence" if converged_before else
               "multi" if n_calls > 1 else "single")
     return dict(status="ok", n_obs=n_calls, composed=bool(composed),
-                cls=[f"{kind}/{test}", "g=1" if g == 1.0 else gen.gamma_bucket(g), hclass, struct],
+                cls=[f"{'sas' if shuffled else kind}/{test}", "g=1" if g == 1.0 else gen.gamma_bucket(g), hclass, struct],
                 batch_shape=list(shape), n_pad=n_pad)
+
+
+def _pi_history(case, problem, kw, P, R, struct):
+    """Policy iteration: solve(k) advances at most k iterations, stops only on policy stability, and a
+    history whose calls ended at their limits equals the single call (bit for bit)."""
+    from vf import target
+
+    kw = dict(kw, max_eval_iter=int(case["period"]) * 5,
+              reset_values_for_each_policy_eval=bool(case["history"][0] % 2))
+    s = target.make_solver("pi", problem, **kw)
+    aspace = np.asarray(problem.action_space)
+    n_calls = 0
+    all_capped = True
+    hist = []
+    prev_pol = np.asarray(s.policy)
+    for ci, k in enumerate(case["history"][:3]):
+        k = min(k, 3)
+        it0 = int(s.iteration)
+        res = target.solve(s, k)
+        it1 = int(res.info.iteration)
+        if it1 - it0 > k or it1 - it0 < 1:
+            return dict(status="violation", kind="limit", detail=f"pi: solve({k}) advanced iteration from {it0} to {it1}")
+        hist.append(k)
+        n_calls += 1
+        if it1 - it0 < k:
+            all_capped = False
+            break
+    composed = False
+    if n_calls >= 2 and all_capped:
+        twin = target.make_solver("pi", problem, **kw)
+        r2 = target.solve(twin, int(sum(hist)))
+        a = s.solver_state
+        if int(r2.info.iteration) == int(sum(hist)):
+            if not (np.array_equal(np.asarray(r2.values), np.asarray(a.values))
+                    and np.array_equal(np.asarray(r2.policy), np.asarray(a.policy))
+                    and int(a.info.iteration) == int(r2.info.iteration)):
+                return dict(status="violation", kind="composition",
+                            detail=f"pi: solve({hist}) in sequence != solve({sum(hist)})")
+            composed = True
+    return dict(status="ok", n_obs=n_calls, composed=composed,
+                cls=["pi/max_diff", gen.gamma_bucket(case["gamma"]), "multi" if n_calls > 1 else "single", struct],
+                batch_shape=[0, 0, 0], n_pad=0)
 
 
 def aggregate(records, cases):
